@@ -8,7 +8,7 @@
                                        h5py.File(path, "r"); registries reset; reader calls (project attributes, root subtree)
      Workspace.close()                 closed: return; writable: listing of groups (sweeps dead referents), for every Concatenator
                                        group when `repack` is set update_attribute (update_field + clear_stats_cache), then
-                                       _io_call(H5Writer.save_entity, root, "r+"); File.close(); repack reset
+                                       _io_call(H5Writer.save_entity, root, "r+"); File.close(); repack reset (writable sessions only)
                                        -- no try/finally: an error in the final save leaves the handle open
                                        -- the external `h5repack` run after File.close() is not modelled (see notes/C10.md)
      Workspace.__exit__                close(), returns None (the exception propagates)
@@ -198,7 +198,7 @@ Definition close_n (dead : nat) (w : world) : world * option err :=
         | (w', None) => (set_repack (set_handle w' Closed) false, None)
         | (w', Some e) => (w', Some e)             (* File.close() is not reached *)
         end
-      else (set_repack (set_handle w Closed) false, None)
+      else (set_handle w Closed, None)          (* repack is reset only after a writable session *)
   end.
 Definition close := close_n 0.
 
